@@ -321,11 +321,14 @@ class _Inliner:
             return any('.'.join(parts[:i]) in self.baseline for i in range(1, len(parts)))
         # (closures are not listed by _functions: they have not vanished, they are just not top-level)
         vanished = {d for k, d in self.baseline.items() if k not in present and d and not nested(k)}
+        vanished_names = {k.split(':')[1] for k in self.baseline if k not in present and not nested(k) and '.' not in k.split(':')[1] and '@' not in k}
         for key, mod, cls, fn, container in _functions(self.mods):
             if key in self.baseline:
                 continue
             if _digest(fn) in vanished:
                 continue          # a renamed function, not a new helper
+            if cls is None and fn.name in vanished_names:
+                continue          # a module-level function of the reviewed tree that moved to another module (same name)
             if not _eligible(fn):
                 continue
             # a name defined more than once anywhere (override, overload) is not safely resolvable by name
@@ -780,16 +783,29 @@ class _Inliner:
             if mod == 'luts':
                 continue
             calls = {id(x.func) for x in ast.walk(tree) if isinstance(x, ast.Call)}
+            imported = {(a.asname or a.name) for n_ in ast.walk(tree) if isinstance(n_, ast.ImportFrom) for a in n_.names}
+
+            def could_be(x, nm):
+                """Can this occurrence of the name refer to the candidate?  A module-level function of module H is H's bare name in H,
+                an imported bare name elsewhere, or <...>.H.name; a parameter or local called the same in another module is not it."""
+                info = cands[nm]
+                if info[2] is not None:            # a method: any attribute of that name may be it
+                    return True
+                if isinstance(x, ast.Name):
+                    return mod == info[1] or nm in imported
+                if isinstance(x, ast.Attribute):
+                    return isinstance(x.value, (ast.Name, ast.Attribute)) and ast.unparse(x.value).split('.')[-1] == info[1]
+                return False
             for x in ast.walk(tree):
                 nm = x.id if isinstance(x, ast.Name) else x.attr if isinstance(x, ast.Attribute) else None
-                if nm in cands and not (isinstance(x, ast.Name) and isinstance(x.ctx, ast.Store)):
+                if nm in cands and not (isinstance(x, ast.Name) and isinstance(x.ctx, ast.Store)) and could_be(x, nm):
                     if id(x) not in calls:
                         cands.pop(nm, None)
             for x in ast.walk(tree):
                 if isinstance(x, ast.Call):
                     for nm in list(cands):
                         f = x.func
-                        named = (isinstance(f, ast.Name) and f.id == nm) or (isinstance(f, ast.Attribute) and f.attr == nm)
+                        named = ((isinstance(f, ast.Name) and f.id == nm) or (isinstance(f, ast.Attribute) and f.attr == nm)) and could_be(f, nm)
                         if named and self._call_kind(x, nm, cands[nm]) is None:
                             cands.pop(nm, None)
         return cands
@@ -1292,6 +1308,34 @@ def _thread(stmts):
                     changed = True
                     break
         i += 1
+    # the same test twice in a row (`if c: A else: B` then `if c: C else: D`), nothing in A or B changing what c reads:
+    # `if c: A; C else: B; D`
+    i = 0
+    while i < len(out) - 1 and not changed:
+        s, nxt = out[i], out[i + 1]
+        if isinstance(s, ast.If) and isinstance(nxt, ast.If) and ast.dump(s.test) == ast.dump(nxt.test):
+            calls_ok = all(isinstance(y.func, ast.Name) and y.func.id in ('isinstance', 'len', 'callable', 'hasattr') for y in ast.walk(s.test) if isinstance(y, ast.Call))
+            tnames = {y.id for y in ast.walk(s.test) if isinstance(y, ast.Name)}
+            def root_(a):
+                while isinstance(a, ast.Attribute):
+                    a = a.value
+                return a.id if isinstance(a, ast.Name) else None
+            # attributes of objects (self.x) may be changed by calls in between; attributes of modules (numbers.Integral) not
+            tattrs = any(isinstance(y, ast.Attribute) and root_(y) in (None, 'self', 'cls') for y in ast.walk(s.test)) or any(
+                isinstance(y, ast.Attribute) and root_(y) in {z.id for b in s.body + s.orelse for z in ast.walk(b) if isinstance(z, ast.Name)} - {'numbers', 'abc', 'io', 'math'}
+                for y in ast.walk(s.test))
+            stored = {y.id for b in s.body + s.orelse for y in ast.walk(b) if isinstance(y, ast.Name) and isinstance(y.ctx, (ast.Store, ast.Del))}
+            effects = any(isinstance(y, ast.Call) for b in s.body + s.orelse for y in ast.walk(b)) and tattrs
+            if calls_ok and not (tnames & stored) and not effects:
+                rest = out[i + 2:]
+                tail_b = copy.deepcopy(list(nxt.body)) + ([] if _always_exits(nxt.body) else copy.deepcopy(rest))
+                tail_e = copy.deepcopy(list(nxt.orelse)) + ([] if (nxt.orelse and _always_exits(nxt.orelse)) else copy.deepcopy(rest))
+                s.body = list(s.body) + ([] if _always_exits(s.body) else tail_b)
+                s.orelse = list(s.orelse) + ([] if (s.orelse and _always_exits(s.orelse)) else tail_e)
+                out = out[:i + 1]
+                changed = True
+                break
+        i += 1
     # the same through a try: each handler and the else-clause end by binding r
     i = 0
     while i < len(out) - 1:
@@ -1496,6 +1540,18 @@ def _copyprop(fn):
                     i += len(new) or 1
                     continue
             i += 1
+    # `u = E` immediately followed by `return u`: `return E` (the path ends there, whatever else is called u elsewhere)
+    for node, fld, sub in list(lists(fn)):
+        for i in range(len(sub) - 1):
+            a, b = sub[i], sub[i + 1]
+            if isinstance(a, ast.Assign) and len(a.targets) == 1 and isinstance(a.targets[0], ast.Name) and isinstance(b, ast.Return) \
+                    and isinstance(b.value, ast.Name) and b.value.id == a.targets[0].id and not isinstance(node, (ast.Try,)) \
+                    and not any(isinstance(x, (ast.FunctionDef, ast.Lambda)) and x is not fn and any(
+                        isinstance(y, ast.Name) and y.id == a.targets[0].id for y in ast.walk(x)) for x in ast.walk(fn)):
+                b.value = a.value
+                del sub[i]
+                changed = True
+                break
     # renaming locals
     for node, fld, sub in list(lists(fn)):
         i = 0
